@@ -190,6 +190,17 @@ func isNodeSafeForLateral(node map[string]any, insideNot bool) bool {
 	for op, value := range node {
 		switch {
 		case isLeafOperator(op):
+			// $in on an address is never collected by collectAddressFilters, so the
+			// predicate pushed into the lateral would not cover it → unsafe
+			if op == "$in" {
+				if m, ok := value.(map[string]any); ok {
+					for key := range m {
+						if isAddressKey(key) {
+							return false
+						}
+					}
+				}
+			}
 			// Address filter inside $not → unsafe
 			if insideNot {
 				if m, ok := value.(map[string]any); ok {
